@@ -81,9 +81,12 @@ Definition select_trash_dirs (user_dirs : list str) (env : environ) (uid : N) (s
   fold_prog user_dirs (fun s d => v <- volume_of d ;; handle s (Found d v)) s1.
 End Scanner.
 
-(* lib/trash_dir_reader.py (fixed: '.trashinfo' alone is not an entry) *)
+(* lib/trash_dir_reader.py (fixed: '.trashinfo', '..trashinfo', '...trashinfo' are not entries: the payload
+   they would name is files/ itself, files/. or files/..) *)
+Definition payload_name (entry : str) : str := firstn (length entry - 10) entry.
 Definition is_trashinfo_name (entry : str) : bool :=
-  ends_with entry s_trashinfo && negb (str_eqb entry s_trashinfo).
+  ends_with entry s_trashinfo &&
+  negb (str_eqb (payload_name entry) [] || is_dot (payload_name entry) || is_dotdot (payload_name entry)).
 Definition entries_if_dir_exists (path : str) : prog (list str) :=
   e <- call_bool (Exists path) ;; if e then call_list (Listdir path) else Ret [].
 Definition list_trashinfo (trash_dir : str) : prog (list str) :=
